@@ -574,11 +574,29 @@ func runCase(c Case) vh.Record {
 		case strings.Contains(so.coqObs, "XPanic"):
 			tags["res:HostPanic"] = true
 		}
-		if strings.Contains(so.coqOp, "(Some ") && strings.Contains(so.coqOp, "%nat))") {
+		if hasDetachArg(o) {
 			tags["arg:detaching-valueOf"] = true
 		}
-		if o.O == "detach" || strings.Contains(so.coqOp, "%nat))") {
+		if o.O == "detach" || hasDetachArg(o) {
 			nontrivial = true
+		}
+		if (o.O == "dvget" || o.O == "dvset") && o.NoLe {
+			tags["dv:default-big-endian"] = true
+		}
+		switch o.O {
+		case "get", "set", "setarr", "settyped", "copywithin", "fill", "slice", "subarray", "reverse", "sort":
+			if o.V < len(e.views) && e.views[o.V].off > 0 {
+				tags["view:byteOffset>0"] = true
+			}
+		}
+		if o.O == "settyped" && o.V < len(e.views) && o.S < len(e.views) {
+			d, sv := e.views[o.V], e.views[o.S]
+			if d.buf == sv.buf && d.kind != sv.kind {
+				tags["settyped:same-buffer-different-kind"] = true
+			}
+			if d.buf == sv.buf && d.kind == sv.kind {
+				tags["settyped:same-buffer-same-kind"] = true
+			}
 		}
 		if o.O == "ctor" || o.O == "get" || o.O == "set" || o.O == "fill" {
 			tags["kind:"+kindNames[o.K]] = true
